@@ -363,7 +363,9 @@ impl<'a> RawFile<'a> {
                         DeserializationWarning::InternalFileLengthIsSmall(lf, actual_file_length),
                     ),
                 }
-                if lf <= 3 {
+                // The sub-file sizes occupy the first 24 bytes of the file. A file that is
+                // shorter than that (lf is 4 or 5 and there is no trailing data) can't be read.
+                if lf <= 3 || actual_file_length < 24 {
                     return (
                         Err(DeserializationError::InternalFileLengthIsTooSmall(
                             lf,
@@ -379,7 +381,7 @@ impl<'a> RawFile<'a> {
         let s: SubFileSizes = {
             let sb: [u8; 24] = b
                 .get(0..24)
-                .expect("3 < lf <= b.len()")
+                .expect("24 <= b.len()")
                 .try_into()
                 .expect("slice has 24 elements so fits in 24 length const array");
             sb.into()
